@@ -56,12 +56,34 @@ def run(ctx, model_ok=True):
         d = bytes(rng.choice([0x8d, 0x0d, 0x0a, 0x1a, 0x00, 0x7f, 0x80, 0xff, 0xc1, 0x41, rng.randrange(256)]) for _ in range(n))
         # decoders answer with a string: keep the bytes they produce below 128 (everything they can emit is, by construction)
         lines.append(f"txtdec td{i} {fs} {hexs(d) if d else '-'}")
+    # record sets packed into a file image (Pack/Records.v): record lengths below, at and beyond the chunk size, neighbours that share a
+    # chunk, far records (holes), texts of several fields, texts that fill the record, one byte too many, other characters
+    for i in range(60 if quick else 1500):
+        fs = ['dos3x', 'prodos'][i % 2]
+        rl = rng.choice([1, 2, 3, 16, 64, 127, 128, 200, 255, 256, 257, 300, 511, 512, 513, 600, 1100, 32767, 32768])
+        nums = sorted(set(rng.choice([0, 1, 2, 3, 4, 7, rng.randrange(40), rng.randrange(400)]) for _ in range(rng.randrange(0, 9))))
+        if rl > 2000:
+            nums = nums[:2]
+        recs = []
+        for nmb in nums:
+            ln = rng.choice([0, 1, 5, max(0, rl - 2), max(0, rl - 1), rl, rng.randrange(1, max(2, min(rl, 700)))])
+            ln = min(ln, 1300)
+            t = ''.join(rng.choice('ABCDEFGHIJ 0123456789,.') for _ in range(ln))
+            if ln > 3 and rng.random() < 0.4:
+                k = rng.randrange(1, ln - 1)
+                t = t[:k] + '\n' + t[k + 1:]
+            if rng.random() < 0.05:
+                t = t + rng.choice(['\u00e9', '\r\n', 'lower', '\x01'])
+            recs.append(f"{nmb}:{hexs(t.encode())}")
+        lines.append(f"recpack rp{i} {fs} {rl} {','.join(recs) or '-'}")
     for i in range(30 if quick else 300):
         n = rng.choice([0, 1, 2, 5, 100, 1024, 1500])
         d = bytes(rng.choice([0x10, 0x0d, 0x00, 0x1f, 0x20, 0x21, 0x7e, 0x7f, 0x80, 0xff, 0x41, rng.randrange(256)]) for _ in range(n))
         lines.append(f"pasdec pd{i} {hexs(d) if d else '-'}")
     if model_ok:
-        fw.correspond(ctx, 'pack-pieces (desequence chunking, DOS binary/token headers vs Pack/Fimg.v; Pascal text encoder and decoder vs Pack/PascalText.v; DOS/ProDOS/CP-M text converters vs Pack/Text.v)', lines)
+        # (a DOS 3.x file image has no end-of-file field: the chunks are compared, the length only on ProDOS)
+        canon = lambda toks, o: (o.rsplit(' eof=', 1)[0] if (o is not None and toks[0] == 'recpack' and toks[2] == 'dos3x') else o)
+        fw.correspond(ctx, 'pack-pieces (desequence chunking, DOS binary/token headers vs Pack/Fimg.v; Pascal text encoder and decoder vs Pack/PascalText.v; DOS/ProDOS/CP-M text converters vs Pack/Text.v; record sets vs Pack/Records.v)', lines, canon=canon)
     olines = []
     k = 0
     for fs in ['dos3x', 'prodos', 'pascal', 'cpm', 'fat']:
